@@ -286,6 +286,11 @@ class Mon:
             if size > q:
                 rec.violation('oversized-value-returned', '%s with memoryQuota=%d returned a %s of %d bytes' % (
                     text, q, type(out[1]).__name__, size), replay)
+            else:
+                deep = deep_oversized(out[1], q)
+                if deep:
+                    rec.violation('oversized-value-nested-in-result', '%s with memoryQuota=%d returned a value holding a %s of %d '
+                                  'bytes at %s' % (text, q, deep[0], deep[1], deep[2]), replay)
         if self.arg_violation is not None:
             fn, name, size, tname = self.arg_violation
             rec.violation('oversized-value-passed-to-function:%s' % fn,
@@ -300,6 +305,28 @@ class Mon:
                 rec.violation('repetition-not-refused:%s' % (
                     hooks.tb_site(out[1]) if out[0] == 'exc' else 'value'), '%s with memoryQuota=%d gave %s' % (text, q, _short(out)), replay)
         return out
+
+
+def deep_oversized(v, q, path='$', depth=0):
+    """a container or string nested in a result whose own size exceeds the quota"""
+    if depth > 6:
+        return None
+    if isinstance(v, dict):
+        items = [('[%r]' % (k,), x) for k, x in list(v.items())[:2000]]
+    elif isinstance(v, (list, tuple, set, frozenset)):
+        items = [('[%d]' % i, x) for i, x in enumerate(list(v)[:2000])]
+    else:
+        return None
+    for key, x in items:
+        if isinstance(x, (str, bytes, list, tuple, dict, set, frozenset)):
+            # sizes as they were in flight: a list was a tuple, a dict a frozen dict (whose own size is its wrapper's)
+            size = 0 if isinstance(x, dict) else sys.getsizeof(tuple(x) if isinstance(x, list) else x, 0)
+            if size > q:
+                return (type(x).__name__, size, path + key)
+            r = deep_oversized(x, q, path + key, depth + 1)
+            if r:
+                return r
+    return None
 
 
 def _short(out):
@@ -455,7 +482,92 @@ def _positions(spec, mon, rec):
                 rec.sample({'kind': 'source-position', 'text': text, 'N': n, 'where': where})
 
 
+SIZED_OVER_LIMIT = ['$big.select($)', '$big.where(true).toList()', '$big.toList()', '[0].select($big)', '$big', '{a => $big}',
+                    '$big.take(1)', '$big.first()', '[$big].len()', 'let(b => $big) -> $b.any()', '$big.orderBy($)',
+                    '$big.toSet().len()', "$big.select(str($)).join(',')", '$big.zip([1])', '$big + [1]']
+
+
+def _worlds(spec, mon, rec):
+    """the limit in other worlds: first-class function calls (delegates), nested evaluation through YaqlInterface
+    from a host function on a context shared by engines with different limits, and the class of the refusal"""
+    n = spec['n']
+    # (a) a sized collection over the limit handed to a function or returned: CollectionTooLargeException, no other class
+    big = tuple(range(n + 3))
+    eng = mon.engine(limitIterators=n)
+    for text in SIZED_OVER_LIMIT:
+        out = mon.run(eng, text, {'big': cat.var(big)})
+        rec.count('src.cases')
+        rec.count('limit.sized_over_limit_cases')
+        rec.case(('sized-over-limit', text, n), nontrivial=True)
+        rp = {'kind': 'sized', 'text': text, 'n': n}
+        if out[0] == 'value':
+            bigc = oversized(out[1], n)
+            if bigc:
+                rec.violation('oversized-collection-in-result:sized-argument', '%s with limitIterators=%d and a %d-element $big returned '
+                              'a %s of %d elements at %s' % (text, n, len(big), bigc[0], bigc[1], bigc[2]), rp)
+        elif out[0] == 'exc' and not isinstance(out[1], yexc.CollectionTooLargeException):
+            rec.violation('limit-refusal-has-wrong-class:%s' % type(out[1]).__name__,
+                          '%s with limitIterators=%d and a %d-element $big raised %s: %s instead of CollectionTooLargeException' % (
+                              text, n, len(big), type(out[1]).__name__, str(out[1])[:80]), rp)
+    # (b) calling a function value: the arguments stay lazy and limited
+    deng = yq.engine({'yaql.limitIterators': n}, allow_delegates=True)
+    dctx = yaql.create_context(delegates=True)
+    for text in ('let(f => lambda($.take(2).toList())) -> $f($src)', 'lambda($.first())($src)', 'let(f => lambda($1.any())) -> $f($src)',
+                 'let(f => lambda($k.take(1).toList())) -> $f(k => $src)', 'let(f => lambda($.len())) -> $f($src)',
+                 'let(f => lambda($)) -> $f($src).take(1)', 'lambda([$1.first(), $2.first()])($src, $src2)'):
+        srcs = {'src': hooks.CountingSource(None, name='$src'), 'src2': hooks.CountingSource(None, name='$src2')}
+        ctx = dctx.create_child_context()
+        for k, v in srcs.items():
+            v.hard_cap = max(400, 20 * n)
+            ctx[k] = v
+        try:
+            out = ('value', deng(text).evaluate(context=ctx))
+        except hooks.PullBudgetBreached as e:
+            out = ('breach', str(e))
+        except Exception as e:
+            out = ('exc', e)
+        rec.count('src.cases')
+        rec.count('limit.delegate_call_cases')
+        rec.case(('delegate-call', text, n), nontrivial=True)
+        worst = max(v.pulls for v in srcs.values())
+        if out[0] == 'breach' or worst > n + 1:
+            rec.violation('lazy-source-overpulled:by=function-value-call', '%s with limitIterators=%d pulled %d items (> N+1) from a lazy '
+                          'argument of a function value (outcome %s)' % (text, n, worst, _short(out) if out[0] != 'breach' else 'hard cap'),
+                          {'kind': 'delegate', 'text': text, 'n': n})
+    # (c) nested evaluation from a host function: the limits of the engine that is evaluating apply, whatever engine
+    #     evaluated the same nested text before on the shared context
+    shared = yaql.create_context().create_child_context()
+
+    def nested_count(yaql_interface, x):
+        return yaql_interface('$1.select($ + 1).len()', x)
+
+    def nested_text(yaql_interface, k):
+        return yaql_interface("'x' * $1", k).upper()
+    shared.register_function(nested_count, name='nestedCount')
+    shared.register_function(nested_text, name='nestedText')
+    lax = yq.engine()
+    strict = yq.engine({'yaql.limitIterators': n, 'yaql.memoryQuota': 2000})
+    for text, data in (('nestedCount($)', list(range(n + 30))), ('nestedText(50000).len()', None)):
+        first = None
+        try:
+            first = lax(text).evaluate(data=data, context=shared.create_child_context())
+        except Exception as e:
+            first = e
+        try:
+            out = ('value', strict(text).evaluate(data=data, context=shared.create_child_context()))
+        except Exception as e:
+            out = ('exc', e)
+        rec.count('src.cases')
+        rec.count('limit.nested_interface_cases')
+        rec.case(('nested-interface', text, n), nontrivial=True)
+        if out[0] == 'value':
+            rec.violation('limit-not-applied-in-nested-evaluation', '%s on the engine with limitIterators=%d / memoryQuota=2000 returned %r '
+                          '(the unlimited engine evaluated it first on the same context and gave %r)' % (text, n, out[1], first),
+                          {'kind': 'nested', 'text': text, 'n': n})
+
+
 def _internal(spec, mon, rec):
+    _worlds(spec, mon, rec)
     for text in INTERNAL:
         mon.limit_case(text, None, spec['n'], 'expr:' + text, family='src')
     rec.sample({'kind': 'internal-producer', 'text': INTERNAL[9], 'N': spec['n']})
@@ -596,11 +708,45 @@ def _bigvars(mon, rec, q):
                               {'kind': 'bigvar', 'text': text, 'q': q, 'big': type(big).__name__})
 
 
+NESTED_BIG_EXPRS = ['$', '$.doc', '[$.doc]', '$.doc.big', '$.doc.values()', '{k => $.doc}', '$.rows.select($)', '$.rows.first()',
+                    'let(d => $.doc) -> $d', '$.doc.big.select($).toList().len()', 'range({n}).groupBy(0)', 'range({n}).groupBy(0).first()',
+                    '[1].select(range({n}).toList())', 'let(x => 1) -> [range({n}).toList()]', 'range({n}).toList().toDict(k, $)',
+                    '[[range({n}).toList()]]']
+
+
+def _nested_big(mon, rec, q):
+    """a collection over the quota that sits inside the host document or is built inside a lambda: it is refused
+    wherever it travels, also when it only appears nested in the value that is returned"""
+    n = q // 4 + 50
+    doc = {'doc': {'big': list(range(n)), 'small': 1}, 'rows': [list(range(n))]}
+    for text in NESTED_BIG_EXPRS:
+        text = text.replace('{n}', str(n))
+        self_q = q
+        mon.hard_cap = 10 ** 7
+        eng = mon.engine(memoryQuota=self_q, limitIterators=10 ** 6)
+        mon.quota = None
+        out = mon.run(eng, text, None, doc)
+        rec.count('mem.cases')
+        rec.count('mem.nested_big_cases')
+        rec.case(('mem-nested', text, q), nontrivial=True)
+        rp = {'kind': 'nested-big', 'text': text, 'q': q}
+        if out[0] == 'value':
+            deep = deep_oversized([out[1]], q)
+            if deep or sys.getsizeof(out[1], 0) > q:
+                rec.violation('oversized-value-nested-in-result', '%s with memoryQuota=%d on a document holding a %d-element list '
+                              'returned %s' % (text, q, n, 'a value holding a %s of %d bytes at %s' % deep if deep else 'an over-quota value'), rp)
+        elif out[0] == 'exc' and not isinstance(out[1], yexc.MemoryQuotaExceededException):
+            rec.violation('limit-refusal-has-wrong-class:%s' % type(out[1]).__name__,
+                          '%s with memoryQuota=%d raised %s: %s instead of MemoryQuotaExceededException' % (
+                              text, q, type(out[1]).__name__, str(out[1])[:80]), rp)
+
+
 def _memory(spec, mon, rec):
     rng = rng_for(spec['seed'], 'c08', spec['name'])
     q = spec['q']
     if spec['part'] == 0:
         _bigvars(mon, rec, q)
+        _nested_big(mon, rec, q)
     MEM_CAP[0] = 12000 if spec['tier'] == 'thorough' else 6000
     exprs = mem_exprs(q, rng)
     rng.shuffle(exprs)
